@@ -59,6 +59,8 @@ Proof.
     + congruence.
   - cbn in H. congruence.
   - cbn in H. congruence.
+  - cbn in H. congruence.
+  - cbn in H. congruence.
   - left. unfold setCloseError in H. rewrite Hn in H. cbn in H. congruence.
 Qed.
 
@@ -338,7 +340,7 @@ Fixpoint hist_firstAE (f0 : Z) (l : list ev) : Z :=
 Fixpoint hist_idle (c : cfg) (i0 : Z) (l : list ev) : Z :=
   match l with
   | [] => i0
-  | EvHsComplete p _ :: r => hist_idle c (if 0 <? p then Z.min (c_maxIdleTimeout c) p else c_maxIdleTimeout c) r
+  | EvHsComplete p _ :: r | EvTP p _ :: r => hist_idle c (if 0 <? p then Z.min (c_maxIdleTimeout c) p else c_maxIdleTimeout c) r
   | _ :: r => hist_idle c i0 r
   end.
 
@@ -364,6 +366,8 @@ Proof.
   - destruct (firstAE s =? 0) eqn:E; cbn; rewrite ?E; auto.
   - destruct (closeErr s) eqn:CE; [auto|]. destruct (decide s now pto); cbn; auto;
       unfold destroyImpl, setCloseError; rewrite CE; cbn; auto.
+  - cbn. auto.
+  - cbn. auto.
   - cbn. auto.
   - cbn. auto.
   - unfold setCloseError. destruct (closeErr s); cbn; auto.
@@ -643,6 +647,114 @@ Qed.
 Lemma rounds_ping_each : forall s r, ka_state s -> round_ok s r ->
   decide s (lastRecv s + Z.max (kaInterval s) (rd_pto r * 3 / 2)) (rd_pto r) = DKeepAlive.
 Proof. intros s r K H. destruct (round_preserves s r K H) as [D _]. exact D. Qed.
+
+(** ** 4a. History-level statements *)
+
+Definition timed (l : list ev) : Prop :=
+  Forall (fun e => match e with EvRecv t | EvSentAE t => 0 < t | _ => True end) l.
+
+(** "not much later": after any history, with the handshake complete, no keep-alive due and nothing else
+    pending, the deadline the loop arms IS max(last received, first ack-eliciting sent after it) +
+    max(idleTimeout, 3 PTO) read off the history, and the wake-up at that deadline closes with ErrIdleTimeout;
+    with other things pending (ACK alarm, loss timer, pacing, keep-alive) the deadline is only earlier. *)
+Lemma idle_not_late_history : forall s0 l pto,
+  0 <= lastRecv s0 -> firstAE s0 = 0 -> timed l ->
+  let s := run s0 l in
+  let T := Z.max (hist_lastRecv (lastRecv s0) l) (hist_firstAE 0 l) + Z.max (hist_idle (cf s0) (idleTimeout s0) l) (3 * pto) in
+  closeErr s = None -> hsComplete s = true ->
+  (nextKA s pto = 0 -> pacing s = 0 ->
+     maybeResetTimer s pto 0 0 = T /\
+     closeErr (step s (EvWake (maybeResetTimer s pto 0 0) pto)) = Some {| ce_err := EIdle; ce_immediate := true |}) /\
+  (forall ack loss, sane s -> 0 <= pto -> maybeResetTimer s pto ack loss <= T).
+Proof.
+  intros s0 l pto H0 F0 Hpos s T Hn Hhs.
+  destruct (run_fields l s0) as [A [B C]]. rewrite F0 in B. fold s in A, B, C.
+  assert (P1 : 0 <= lastRecv s).
+  { rewrite A. clear - H0 Hpos. revert H0. generalize (lastRecv s0). induction l as [|e l IH]; intros t Ht; cbn; [exact Ht|].
+    inversion Hpos; subst. destruct e; try (apply IH; assumption). apply IH; [assumption|lia]. }
+  assert (P2 : 0 <= firstAE s).
+  { rewrite B. clear - Hpos. assert (G : forall f, 0 <= f -> 0 <= hist_firstAE f l).
+    { induction l as [|e l IH]; intros f Hf; cbn; [exact Hf|].
+      inversion Hpos; subst. destruct e; try (apply IH; assumption).
+      - apply IH; [assumption|lia].
+      - apply IH; [assumption|]. destruct (f =? 0); lia. }
+    apply G. lia. }
+  assert (ET : nextIdle s pto = T).
+  { unfold nextIdle, idleEff, T. rewrite (idleStart_max' s P1 P2), A, B, C. lia. }
+  split.
+  - intros Hk Hp. rewrite (deadline_eq_idle s pto Hhs (or_introl Hk) Hp). split; [exact ET|].
+    cbn [step]. rewrite Hn. rewrite (wake_at_idle_deadline_fires s pto Hhs Hk).
+    unfold destroyImpl, setCloseError. rewrite Hn. reflexivity.
+  - intros ack loss Hs Hp. rewrite <- ET. apply deadline_le_idle; assumption.
+Qed.
+
+Lemma step_hs : forall s e, hsComplete s = true -> hsComplete (step s e) = true.
+Proof.
+  intros s e H. destruct e; cbn [step]; try (cbn; auto; fail).
+  - destruct (firstAE s =? 0); cbn; exact H.
+  - destruct (closeErr s); [exact H|]. destruct (decide s now pto); cbn; auto;
+      unfold destroyImpl, setCloseError; destruct (closeErr s); cbn; exact H.
+  - unfold setCloseError. destruct (closeErr s); cbn; exact H.
+Qed.
+
+Lemma decide_no_timeout : forall s now pto, hsComplete s = true -> now < lastRecv s + idleTimeout s ->
+  decide s now pto = DKeepAlive \/ decide s now pto = DContinue.
+Proof.
+  intros s now pto Hh Hlt. destruct (decide s now pto) eqn:D; auto.
+  - apply decide_hs_cond in D. destruct D as [D _]. congruence.
+  - apply decide_idle_cond in D. destruct D as [[_ D]|[D _]]; [|congruence].
+    pose proof (idleStart_ge_lastRecv s). lia.
+Qed.
+
+Definition no_close_requests (l : list ev) : Prop :=
+  Forall (fun e => match e with EvClose _ => False | _ => True end) l.
+
+(** every wake-up of the history comes before lastPacketReceived + idleTimeout: the peer's packets (the answers
+    to the keep-alive PINGs) keep arriving within the idle period *)
+Definition wakes_in_time (s0 : st) (l : list ev) : Prop :=
+  forall l1 now pto l2, l = l1 ++ EvWake now pto :: l2 ->
+    now < lastRecv (run s0 l1) + idleTimeout (run s0 l1).
+
+(** over ALL histories (any interleaving of receive / send / wake-up / block-mode / parameter events):
+    as long as packets keep arriving in time, the idle branch is never reached *)
+Lemma no_idle_while_answered : forall l s0,
+  hsComplete s0 = true -> closeErr s0 = None -> no_close_requests l -> wakes_in_time s0 l ->
+  closeErr (run s0 l) = None /\ hsComplete (run s0 l) = true.
+Proof.
+  induction l as [|e l IH]; intros s0 Hh Hc Hn Hw; [cbn; auto|].
+  rewrite run_cons. inversion Hn as [|? ? He Hn']; subst.
+  apply IH; [apply step_hs; exact Hh| |exact Hn'|].
+  - destruct e; cbn [step]; try (cbn; exact Hc).
+    + destruct (firstAE s0 =? 0); cbn; exact Hc.
+    + rewrite Hc. specialize (Hw [] now pto l eq_refl). cbn in Hw.
+      destruct (decide_no_timeout s0 now pto Hh Hw) as [D|D]; rewrite D; cbn; exact Hc.
+    + contradiction.
+  - intros l1 now pto l2 E. specialize (Hw (e :: l1) now pto l2). rewrite run_cons in Hw. apply Hw.
+    rewrite E. reflexivity.
+Qed.
+
+(** a PING sent at lastPacketReceived + interval and answered within idleTimeout - interval arrives in time *)
+Lemma answer_in_time : forall lr interval idle r, r - (lr + interval) < idle - interval -> r < lr + idle.
+Proof. intros. lia. Qed.
+
+(** ** 4c. The lower bound on the peer's idle timeout (MinRemoteIdleTimeout) *)
+
+Lemma min_remote_idle_timeout_5s : rl_MinRemoteIdleTimeout = 5000000000.
+Proof. reflexivity. Qed.
+
+(** RFC 9000 10.1: the effective idle timeout is the minimum of both advertised values. The own idle timer
+    uses min(own, max(5 s, peer's)) instead: never shorter than the RFC's value, longer only when the peer
+    advertised less than 5 s, and then by less than 5 s - peer's value. *)
+Lemma idle_excess_bounded : forall s adv, 0 < adv -> 0 <= c_maxIdleTimeout (cf s) ->
+  let own := idleTimeout (applyTP s (parse_idle adv) adv) in
+  let rfc := Z.min (c_maxIdleTimeout (cf s)) adv in
+  rfc <= own /\ own - rfc <= Z.max 0 (rl_MinRemoteIdleTimeout - adv) /\ own - rfc < rl_MinRemoteIdleTimeout /\
+  (rl_MinRemoteIdleTimeout <= adv -> own = rfc).
+Proof.
+  intros s adv Ha Hc. unfold applyTP, parse_idle. cbn [idleTimeout].
+  assert (E : (0 <? Z.max rl_MinRemoteIdleTimeout adv) = true) by (unfold rl_MinRemoteIdleTimeout; lia).
+  rewrite E. unfold rl_MinRemoteIdleTimeout. lia.
+Qed.
 
 (** ** 4b. Any number of parked callers per call *)
 
